@@ -501,7 +501,7 @@ RECORDS = {
 }
 MODELLED_RECORDS = set(RECORDS)
 ORACLE_ONLY_RECORDS = {16: "WalReceiptCorrelationRecord", 17: "IngressEnvelopeRetained(v2,v1-legacy)", 18: "WalRuntimeStateDeltaRecord",
-                       19: "MbusFramesV1", 20: "MbusPacketsV2", 21: "EintLog"}
+                       19: "MbusFramesV1", 20: "MbusPacketsV2", 21: "EintLog", 22: "IngressEnvelopeValue(constructor->bytes->value)"}
 
 
 def _rb(rng, n):
@@ -557,8 +557,32 @@ def _ctrr_key(b):
     return (b[0:32], int.from_bytes(b[32:40], "little"), int.from_bytes(b[40:48], "little"), b[48:80], b[80:112], b[112:144], b[144:176])
 
 
+_TICKS = [0, 1, 2, 255, 256, 257, 511, 512, 65535, 65536, 2 ** 32 - 1, 2 ** 32, 2 ** 63, 2 ** 64 - 1]
+
+
+def _parents17(rng):
+    """causal-parent records; a third of the time same kind / same worldline with ticks that order differently as
+    little-endian bytes and as numbers (256 < 1 bytewise), or equal ticks with such commit_global_ticks"""
+    le = lambda n, w: (n & (2 ** (8 * w) - 1)).to_bytes(w, "little")
+    n = rng.choice([0, 0, 1, 2, 3])
+    if rng.random() < 0.35:
+        base = _ctrr(rng); tag = rng.choice([1, 1, 2]); out = []
+        for _ in range(rng.choice([2, 2, 3, 4])):
+            t1 = rng.choice(_TICKS + [rng.getrandbits(64)])
+            if rng.random() < 0.3 and out:
+                t1 = int.from_bytes(out[0][33:41], "little")
+            out.append(bytes([tag if rng.random() < 0.85 else 3 - tag]) + base[:32] + le(t1, 8) + le(rng.choice(_TICKS), 8) + base[48:])
+        return out
+    return [bytes([rng.choice([1, 1, 2])]) + _ctrr(rng) for _ in range(n)]
+
+
 def gen_irregular(rng, rid):
     le = lambda n, w: (n & (2 ** (8 * w) - 1)).to_bytes(w, "little")
+    if rid == 22:
+        ps = _parents17(rng)
+        rng.shuffle(ps)
+        if ps and rng.random() < 0.15: ps.append(ps[0])
+        return b"".join(ps)
     if rid == 16:
         parents = [_ctrr(rng) for _ in range(rng.choice([0, 0, 1, 2, 3, 4]))]
         if rng.random() < 0.3 and parents:      # shared prefix so that the tick fields decide the order
@@ -578,11 +602,12 @@ def gen_irregular(rng, rid):
             tgt = b"\x02" + _rb(rng, 32) + le(len(name), 8) + name
         elif t == 3: tgt = b"\x03" + _rb(rng, 64)
         else: tgt = bytes([t]) + _rb(rng, 32)
-        ps = [bytes([rng.choice([1, 1, 2])]) + _ctrr(rng) for _ in range(rng.choice([0, 0, 1, 2, 3]))]
+        ps = _parents17(rng)
         if magic == b"EINGR001": ps = [b"\x01" + _rb(rng, 32) for _ in range(rng.choice([0, 0, 0, 1]))]
         mode = rng.random()
-        if mode < 0.75: ps = sorted(set(ps), key=lambda p: (p[0], _ctrr_key(p[1:])) if len(p) == 177 else (p[0], p[1:]))
-        elif mode < 0.85 and ps: ps.append(ps[0])
+        if mode < 0.65: ps = sorted(set(ps), key=lambda p: (p[0], _ctrr_key(p[1:])) if len(p) == 177 else (p[0], p[1:]))
+        elif mode < 0.8: ps = sorted(set(ps))      # bytewise order: differs from the canonical (numeric tick) order above byte 0
+        elif mode < 0.9 and ps: ps.append(ps[0])
         data = _rb(rng, rng.choice([0, 1, 16, 100]))
         pay = bytes([rng.choice([1, 1, 1, 1, 2])]) + _rb(rng, 32) + le(len(data), 8) + data
         return magic + tgt + le(len(ps), 8) + b"".join(ps) + pay
